@@ -9,7 +9,8 @@ TrackerState::success_time_next() const {
   if (m_counters.success_counter == 0)
     return {};
 
-  return m_counters.success_time_last + std::max(m_normal_interval, min_normal_interval);
+  // Never announce before the tracker's minimum interval.
+  return m_counters.success_time_last + std::max({m_normal_interval, m_min_interval, min_normal_interval});
 }
 
 std::chrono::seconds
